@@ -1,12 +1,74 @@
 package main
 
-// Replay of solver models against the real code (go test -overlay).
+// Replay of counterexamples against the real code (go test -overlay).
+//
+// The engine's models are assignments to symbolic inputs and database rows; turning an arbitrary
+// model into a Go test is not attempted. Instead /verif/replaysrc holds hand-written, in-package
+// tests, one per counterexample class the contracts have produced so far (the "witness" of the class:
+// "the decoded pointer is nil" is the input null, "the guarded insert hits nothing" is the scripted
+// interleaving, ...). replaysrc/INDEX maps a failed obligation (function, kind, text) to such a test.
+// When a failed obligation has an entry, the test is run against /repo's working tree; if it prints
+// VERIF-REPRODUCED the violation is reported with that failing input, otherwise (or when there is no
+// entry) the VIOLATION line ends with no-failing-input-found and the model is attached.
+
+import (
+	"bufio"
+	"os"
+	"os/exec"
+	"path/filepath"
+	"strings"
+	"sync"
+)
 
 type replayResult struct {
 	Reproduced bool
 	Text       string
 }
 
+type replayEntry struct{ fn, kind, name, dir, test string }
+
+var replayMu sync.Mutex
+
+func loadReplayIndex(verifDir string) []replayEntry {
+	f, err := os.Open(filepath.Join(verifDir, "replaysrc", "INDEX"))
+	if err != nil {
+		return nil
+	}
+	defer f.Close()
+	var out []replayEntry
+	sc := bufio.NewScanner(f)
+	for sc.Scan() {
+		line := strings.TrimSpace(sc.Text())
+		if line == "" || strings.HasPrefix(line, "#") {
+			continue
+		}
+		p := strings.Split(line, "|")
+		if len(p) != 5 {
+			continue
+		}
+		out = append(out, replayEntry{strings.TrimSpace(p[0]), strings.TrimSpace(p[1]), strings.TrimSpace(p[2]), strings.TrimSpace(p[3]), strings.TrimSpace(p[4])})
+	}
+	return out
+}
+
 func tryReplay(prog *Program, prop, fn, name, kind, model, verifDir string) replayResult {
-	return replayResult{Text: "no replay harness for this obligation class; the model is attached"}
+	for _, e := range loadReplayIndex(verifDir) {
+		if !strings.Contains(fn, e.fn) || (e.kind != "*" && e.kind != kind) || !strings.Contains(name, e.name) {
+			continue
+		}
+		replayMu.Lock()
+		cmd := exec.Command(filepath.Join(verifDir, "tools", "replay.sh"), e.dir, "^"+e.test+"$")
+		out, _ := cmd.CombinedOutput()
+		replayMu.Unlock()
+		text := string(out)
+		if len(text) > 4000 {
+			text = text[:4000] + "\n...(truncated)"
+		}
+		hdr := "replay test " + e.test + " (replaysrc/" + e.dir + ", injected with go test -overlay into the real package):\n"
+		if strings.Contains(text, "VERIF-REPRODUCED") {
+			return replayResult{Reproduced: true, Text: hdr + text}
+		}
+		return replayResult{Text: "the replay test for this counterexample class did not reproduce on the current tree:\n" + hdr + text}
+	}
+	return replayResult{Text: "no replay test for this obligation class; the model is attached"}
 }
